@@ -6,7 +6,7 @@
     corner numbering, any insertion order: these are all just different [bs]) and ALL oracles. *)
 From Coq Require Import List Bool Arith.
 From CB Require Import Base.Hex Model.Propagate Proofs.PropagateBasics Proofs.PropagateTerm Proofs.PropagateInv
-  Proofs.PropagateInit Proofs.PropagateShort Proofs.PropagateFinal.
+  Proofs.PropagateInit Proofs.PropagateShort Proofs.PropagateFinal Proofs.PropagateOrder.
 From CB Require Import Gen.C02.Tables.
 Import ListNotations.
 
@@ -100,31 +100,74 @@ Proof.
   exists s. unfold final, start in *. rewrite P. auto.
 Qed.
 
-(** ** order independence.  One-section chops: the complete outcome (kind, every block count, every
-    wire count) does not depend on the iteration order of the neighbour/coincident containers.
-    Any chops: whenever two orders both succeed they write the same counts (and by C02_undefined /
-    C02_complete the undefined error and a count conflict do not depend on the order either); whether
-    multi-section lists meeting on a shared edge agree is decided by the check itself, and the full
-    statement for that case is kept as C02_order_independent_stmt below, proved for one-section chops. *)
+(** ... and whether the section lists agree is a property of the INPUT: [user_agree bs] compares, for
+    every two wires of user-chopped directions joining the same two vertices, the two users' section
+    lists (reversed when the wires run in opposite directions).  Section lists that propagation puts
+    on a shared edge never disagree by themselves (Proofs/PropagateOrder.v, invariant [Agree]). *)
+Definition C02_complete_sections_input_stmt : Prop :=
+  forall bs o_coin o_nbrs, nondegenerate bs = true -> oracle_ok bs o_coin o_nbrs = true ->
+    every_family_chopped bs -> ~ conflict bs ->
+    (user_agree bs = true -> exists cs ws, run bs o_coin o_nbrs = Ok cs ws) /\
+    (user_agree bs = false -> run bs o_coin o_nbrs = Inconsistent).
+
+Theorem C02_complete_sections_input : C02_complete_sections_input_stmt.
+Proof. intros bs oc on ND K AF NC. exact (run_characterised bs ND oc on K AF NC). Qed.
+
+(** ** order independence, for chops of ANY number of sections: the complete outcome (its kind - ok,
+    undefined error, inconsistent error - and on success every block count and every wire count) does
+    not depend on the iteration order of the neighbour/coincident containers. *)
 Definition C02_order_independent_stmt : Prop :=
   forall bs o1 n1 o2 n2, nondegenerate bs = true ->
     oracle_ok bs o1 n1 = true -> oracle_ok bs o2 n2 = true -> run bs o1 n1 = run bs o2 n2.
 
-Definition C02_order_independent_partial_stmt : Prop :=
+Theorem C02_order_independent : C02_order_independent_stmt.
+Proof. intros bs o1 n1 o2 n2 ND K1 K2. exact (run_oracle_independent_all bs ND o1 n1 o2 n2 K1 K2). Qed.
+
+(** the same, spelled out clause by clause (the form in which it used to be proved in part) *)
+Inductive kind := KOk | KUndefined | KInconsistent | KNoFuel | KBadOracle.
+Definition kind_of (o : outcome) : kind :=
+  match o with Ok _ _ => KOk | Undefined => KUndefined | Inconsistent => KInconsistent
+             | NoFuel => KNoFuel | BadOracle => KBadOracle end.
+
+Definition C02_order_independent_kind_stmt : Prop :=
   forall bs o1 n1 o2 n2, nondegenerate bs = true ->
     oracle_ok bs o1 n1 = true -> oracle_ok bs o2 n2 = true ->
-    (single_section bs -> run bs o1 n1 = run bs o2 n2) /\
+    kind_of (run bs o1 n1) = kind_of (run bs o2 n2) /\
     (forall cs1 ws1 cs2 ws2, run bs o1 n1 = Ok cs1 ws1 -> run bs o2 n2 = Ok cs2 ws2 -> cs1 = cs2 /\ ws1 = ws2) /\
     (run bs o1 n1 = Undefined <-> run bs o2 n2 = Undefined).
 
-Theorem C02_order_independent_partial : C02_order_independent_partial_stmt.
+Theorem C02_order_independent_kind : C02_order_independent_kind_stmt.
 Proof.
-  intros bs o1 n1 o2 n2 ND K1 K2. split; [|split].
-  - intro SS. exact (run_oracle_independent bs ND o1 n1 o2 n2 SS K1 K2).
-  - intros cs1 ws1 cs2 ws2 R1 R2. exact (run_oracle_independent_counts bs ND o1 n1 o2 n2 cs1 ws1 cs2 ws2 K1 K2 R1 R2).
-  - destruct (oracle_ok_incl bs o1 n1 K1) as (A1 & B1 & B1'). destruct (oracle_ok_incl bs o2 n2 K2) as (A2 & B2 & B2').
-    rewrite (run_undefined_iff bs o1 n1 A1 B1 B1' ND K1), (run_undefined_iff bs o2 n2 A2 B2 B2' ND K2). tauto.
+  intros bs o1 n1 o2 n2 ND K1 K2. rewrite (C02_order_independent bs o1 n1 o2 n2 ND K1 K2).
+  split; [reflexivity|]. split; [|tauto]. intros cs1 ws1 cs2 ws2 R1 R2. rewrite R1 in R2. inversion R2. auto.
 Qed.
+
+(** What DOES depend on the iteration order is outside the outcome [Ok counts wire_counts]: the section
+    LIST of a propagated wire that no other block shares.  A block B between a neighbour chopped [3;4]
+    and a neighbour chopped [4;3] (same total) gets, on its free wire, the list of the neighbour met
+    first.  Both orders succeed with the same counts. *)
+Definition ow_blocks : list blk :=
+  [ {| verts := [0; 1; 3; 2; 8; 9; 11; 10]; uchops := [[3; 4]; [2]; [2]] |};
+    {| verts := [12; 13; 15; 14; 20; 21; 23; 22]; uchops := [[4; 3]; [2]; [2]] |};
+    {| verts := [2; 3; 5; 4; 10; 11; 13; 12]; uchops := [[]; [5]; []] |} ].
+Definition ow_coin_rev (w : wire) : list wire := rev (coin_set ow_blocks w).
+Definition ow_nbrs_rev (x : axis) : list axis := rev (nbr_set ow_blocks x).
+
+Definition C02_free_wire_sections_order_dependent_stmt : Prop :=
+  nondegenerate ow_blocks = true /\ user_agree ow_blocks = true /\
+  oracle_ok ow_blocks (o_coin_ins ow_blocks) (o_nbrs_ins ow_blocks) = true /\
+  oracle_ok ow_blocks ow_coin_rev ow_nbrs_rev = true /\
+  run ow_blocks (o_coin_ins ow_blocks) (o_nbrs_ins ow_blocks) = run ow_blocks ow_coin_rev ow_nbrs_rev /\
+  kind_of (run ow_blocks ow_coin_rev ow_nbrs_rev) = KOk /\
+  match final ow_blocks (o_coin_ins ow_blocks) (o_nbrs_ins ow_blocks), final ow_blocks ow_coin_rev ow_nbrs_rev with
+  | Some s1, Some s2 =>
+      map (g s1) (wires_of_axis (2, 0)) = [[3; 4]; [3; 4]; [4; 3]; [3; 4]] /\
+      map (g s2) (wires_of_axis (2, 0)) = [[3; 4]; [4; 3]; [4; 3]; [3; 4]]
+  | _, _ => False
+  end.
+
+Theorem C02_free_wire_sections_order_dependent : C02_free_wire_sections_order_dependent_stmt.
+Proof. vm_compute. repeat split; reflexivity. Qed.
 
 (** the order in which the (repaired) implementation walks its containers is the insertion order, a
     function of the script; it is a valid oracle, so the outcome is a function of the script *)
@@ -144,7 +187,7 @@ Definition ex_blocks : list blk :=
 
 Example C02_example :
   (forall x, In x (all_axes (nblocks ex_blocks)) -> length (user_chops ex_blocks x) <= 1) /\
-  nondegenerate ex_blocks = true /\
+  nondegenerate ex_blocks = true /\ user_agree ex_blocks = true /\
   oracle_ok ex_blocks (o_coin_ins ex_blocks) (o_nbrs_ins ex_blocks) = true /\
   run ex_blocks (o_coin_ins ex_blocks) (o_nbrs_ins ex_blocks)
   = Ok [[3; 4; 2]; [3; 4; 2]; [5; 4; 2]; [5; 4; 6]]
@@ -162,5 +205,8 @@ Print Assumptions C02_terminates.
 Print Assumptions C02_undefined.
 Print Assumptions C02_complete.
 Print Assumptions C02_complete_sections.
-Print Assumptions C02_order_independent_partial.
+Print Assumptions C02_complete_sections_input.
+Print Assumptions C02_order_independent.
+Print Assumptions C02_order_independent_kind.
+Print Assumptions C02_free_wire_sections_order_dependent.
 Print Assumptions C02_deterministic.
